@@ -27,9 +27,9 @@ RULE = ('Enumerated: every table whose rows are drawn from the 8 possible (contr
 ASSUMPTIONS = ['subsets are passed as lists of string IDs (tuples are documented for geo_index only)',
                'True == 1 and 1.0 == 1 count as entries in {0, 1} (the statement says entries equal 0 or 1)']
 EXHAUSTIVE = {'quick': True, 'thorough': True}
-MINIMA = {'quick': {'tables': 1000, 'accepted': 700, 'rejected': 300, 'subset_queries': 5000,
+MINIMA = {'quick': {'tables_with_permuted_columns': 200, 'tables': 1000, 'accepted': 700, 'rejected': 300, 'subset_queries': 5000,
                     'malformed': 300, 'distinct_nontrivial': 500},
-          'thorough': {'tables': 9000, 'accepted': 5000, 'rejected': 3500, 'subset_queries': 100000,
+          'thorough': {'tables_with_permuted_columns': 2000, 'tables': 9000, 'accepted': 5000, 'rejected': 3500, 'subset_queries': 100000,
                        'malformed': 2000, 'distinct_nontrivial': 5000}}
 MAXG = {'quick': 3, 'thorough': 4}
 CHUNKS = {'quick': 32, 'thorough': 128}
@@ -89,16 +89,20 @@ def check_assignment(res, geos_ref, rowmap, violations, where):
       return
 
 
-def run_table(GE, ids, rows, index_keyed, counters, violations, nontrivial):
+def run_table(GE, ids, rows, index_keyed, counters, violations, nontrivial, colperm=None):
   df = pd.DataFrame({'geo': ids, 'control': [r[0] for r in rows], 'treatment': [r[1] for r in rows],
                      'exclude': [r[2] for r in rows]})
   if index_keyed:
     df = df.set_index('geo')
+  if colperm is not None:
+    cols = list(df.columns)
+    df = df[[cols[i] for i in colperm if i < len(cols)] + [c for j, c in enumerate(cols) if j >= len(colperm)]]
+    counters['tables_with_permuted_columns'] += 1
   before = df.copy()
   out = util.call(GE, df)
   counters['tables'] += 1
   want = expected_accept(rows)
-  where = 'table ids=%r rows=%r index_keyed=%s' % (ids, rows, index_keyed)
+  where = 'table ids=%r rows=%r index_keyed=%s columns=%s' % (ids, rows, index_keyed, list(df.columns))
   if not df.equals(before):
     violations.append({'clause': 'input-mutated', 'mech': 'elig-input-mutated', 'detail': where})
   if want and not out.ok:
@@ -222,7 +226,11 @@ def run_case(spec):
       for index_keyed in (False, True):
         style = 'int' if (n + index_keyed) % 2 else 'str'
         ids = [10, 2, 1, 33][:G] if style == 'int' else ['b', 'a', 'zz', 'C'][:G]
-        run_table(GE, ids, list(rows), index_keyed, counters, violations, nontrivial)
+        perm = None
+        if n % 3 == 0:
+          k = 3 if index_keyed else 4
+          perm = r.sample(range(k), k)              # columns arrive in another order
+        run_table(GE, ids, list(rows), index_keyed, counters, violations, nontrivial, colperm=perm)
       if sample is None and G == MAXG[tier] and expected_accept(rows):
         sample = {'kind': 'enumerated table', 'rows': [list(q) for q in rows],
                   'classes': [gen.ROW_CLASS[tuple(q)] for q in rows],
